@@ -122,6 +122,35 @@ func codeUnmarshalTable(c *core.Ctx, fd *ast.FuncDecl, info *types.Info) (map[st
 		// body: *c = K ; return nil
 		var val int64
 		okShape := len(cs.Clause.Body) == 2
+		// general form: the clause assigns exactly one Code constant (to *c, or to a result variable of
+		// an inlined lookup helper whose value is stored through the receiver afterwards) and calls nothing
+		if cv, n, clean := codeConstAssigned(info, cs.Clause); n == 1 && clean {
+			if !(len(cs.Clause.Body) == 2 && isStarAssign(info, cs.Clause.Body[0], recv)) {
+				stores := false
+				ast.Inspect(fd.Body, func(x ast.Node) bool {
+					if as, ok := x.(*ast.AssignStmt); ok && len(as.Lhs) == 1 {
+						if star, ok := as.Lhs[0].(*ast.StarExpr); ok && astx.ObjOf(info, star.X) == recv {
+							stores = true
+						}
+					}
+					return true
+				})
+				if stores {
+					for _, k := range cs.Keys {
+						sv, ok := astx.ConstString(info, k)
+						if !ok {
+							c.Undecided("UnmarshalText/case", k.Pos(), "non-constant case key")
+							return nil, nil
+						}
+						if _, dup := table[sv]; dup {
+							c.Violation("UnmarshalText/dup", k.Pos(), "text %q has two cases", sv)
+						}
+						table[sv] = cv
+					}
+					continue
+				}
+			}
+		}
 		if okShape {
 			as, isAssign := cs.Clause.Body[0].(*ast.AssignStmt)
 			ret, isRet := cs.Clause.Body[1].(*ast.ReturnStmt)
@@ -588,4 +617,42 @@ func endsInReturn(fd *ast.FuncDecl) bool {
 		return ok
 	}
 	return false
+}
+
+func isStarAssign(info *types.Info, st ast.Stmt, recv types.Object) bool {
+	as, ok := st.(*ast.AssignStmt)
+	if !ok || len(as.Lhs) != 1 {
+		return false
+	}
+	star, ok := as.Lhs[0].(*ast.StarExpr)
+	return ok && astx.ObjOf(info, star.X) == recv
+}
+
+// codeConstAssigned counts the assignments of a Code-typed constant inside a case clause and reports
+// the value and whether the clause is free of calls.
+func codeConstAssigned(info *types.Info, cl *ast.CaseClause) (val int64, n int, clean bool) {
+	clean = true
+	for _, st := range cl.Body {
+		ast.Inspect(st, func(x ast.Node) bool {
+			switch y := x.(type) {
+			case *ast.CallExpr:
+				if tv, ok := info.Types[y.Fun]; !ok || !tv.IsType() {
+					clean = false
+				}
+			case *ast.AssignStmt:
+				for _, r := range y.Rhs {
+					if tv, ok := info.Types[r]; ok && tv.Value != nil {
+						if named := astx.NamedOf(tv.Type); named != nil && named.Obj().Name() == "Code" {
+							if v, ok := astx.ConstInt(info, r); ok {
+								val = v
+								n++
+							}
+						}
+					}
+				}
+			}
+			return true
+		})
+	}
+	return val, n, clean
 }
